@@ -85,7 +85,8 @@ EchoDeviations == {"Dev_RequiredUndeclaredNotEnforced", "Dev_DroppedMembersCount
 \*     as an array item keeps the optional's "nil means absent": a nil item passes
 \*     Validate and is dropped from the array when written
 \*   Dev_NullableEnumAcceptsNull: the C03 deviation of this name, met from the writing side
-BuiltDeviations == {"Dev_NullableEnumAcceptsNull", "Dev_PropertyCountNotInValidate", "Dev_AdditionalPropsKeyNamedLikeMember", "Dev_NilRawWrittenAsNothing",
+\*   Dev_EnumIgnoresOtherKeywords: likewise (an enum type's Validate checks membership only)
+BuiltDeviations == {"Dev_EnumIgnoresOtherKeywords", "Dev_NullableEnumAcceptsNull", "Dev_PropertyCountNotInValidate", "Dev_AdditionalPropsKeyNamedLikeMember", "Dev_NilRawWrittenAsNothing",
                     "Dev_NilPointerEmptyStruct", "Dev_SharedArrayNilSemantic"}
 
 (**************************** implementation layer *************************)
